@@ -81,6 +81,14 @@ pub broadcast proof fn lemma_component_wf(i: Seq<u8>)
     lemma_field_bounds(i);
 }
 
+/// a successful greeting lies inside the input
+pub proof fn lemma_greeting_bounds(i: Seq<u8>)
+    ensures spec_greeting(i) matches PR::Good(v, n) ==> 0 < n <= i.len()
+{
+    lemma_prim_bounds(i, 0);
+    match p_tag(i, 0, t_greet()) { PR::Good(_, a0) => { lemma_run_end_props(i, a0, |b: u8| not_lf(b)); } _ => {} }
+}
+
 /// [lemma fold_ext] If folding p stops for lack of input at (st2, rest), then folding p + c is folding rest + c from st2.
 pub proof fn lemma_fold_ext(st: StateB, p: Seq<u8>, c: Seq<u8>)
     requires spec_fold(st, p) is More
